@@ -114,10 +114,16 @@ package masswallet
 //@   trusted
 //@   requires w != nil && out != nil
 //@   ensures (err == nil) == (utxoFlags != nil)
+// C03 (alters nothing else): whatever signing does -- success or failure, any sighash flag -- the transaction keeps its
+// inputs (same objects, same previous outpoints and sequences), its outputs (same objects, values, scripts), lock time,
+// version and payload; only the witness of an input is ever assigned
+//@ define txKeptExceptWitness(t) = (sameSlice(t.TxIn, old(t.TxIn)) && sameSlice(t.TxOut, old(t.TxOut)) && t.LockTime == old(t.LockTime) && t.Version == old(t.Version) && sameSlice(t.Payload, old(t.Payload)) && (forall qi_ int :: 0 <= qi_ && qi_ < len(t.TxIn) ==> t.TxIn[qi_] == old(t.TxIn[qi_]) && t.TxIn[qi_].Sequence == old(t.TxIn[qi_].Sequence) && t.TxIn[qi_].PreviousOutPoint.Index == old(t.TxIn[qi_].PreviousOutPoint.Index) && bytesEq(t.TxIn[qi_].PreviousOutPoint.Hash, 0, old(t.TxIn[qi_].PreviousOutPoint.Hash), 0, 32)) && (forall qo_ int :: 0 <= qo_ && qo_ < len(t.TxOut) ==> t.TxOut[qo_] == old(t.TxOut[qo_]) && t.TxOut[qo_].Value == old(t.TxOut[qo_].Value) && sameSlice(t.TxOut[qo_].PkScript, old(t.TxOut[qo_].PkScript))))
 //@ func (*WalletManager).signWitnessTx
-//@   props C19
+//@   props C19 C03
 //@   requires wmWF(w) && txWF(tx) && params != nil
 //@   modifies *
+//@   ensures[C03] txKeptExceptWitness(tx)
+//@   loop#1 invariant[C03] txKeptExceptWitness(tx)
 //@   loop#1 invariant wmWF(w) && txWF(tx) && sameSlice(tx.TxIn, old(tx.TxIn)) && params != nil && cacheWF(cache) && cacheMeta != nil && cache != nil
 //@   loop#1 invariant forall qk_ string :: has(cache, qk_) ==> len(valAt[*wire.MsgTx](cache, qk_).TxOut) >= 1
 
